@@ -230,7 +230,7 @@ def rule_writers(ctx):
 
 RULES = [("probe", rule_probe), ("store", rule_store), ("writers", rule_writers)]
 # mate / check recognition rests on the legality filter and the check test
-RULES += engine.premise_rules("c01", ["filter", "probe", "check-mirror", "square-arith"])
+RULES += engine.movegen_premises(["check-mirror"])
 # a forced mate is found only if the search is the full-width search the property describes: no pruning beyond
 # alpha-beta / null-window re-search, the terminal scores, and a completed root search recording its result (C11 rules)
 RULES += engine.premise_rules("c11", ["exits", "root-result", "windows", "cut", "terminal", "ply-counter"])
